@@ -100,6 +100,13 @@ let levent s = match next s with
   | 2 -> LUndoUntil (nextn s)
   | _ -> LSoft
 
+let devent s = match next s with
+  | 0 -> let l = lit s in let r = nextn s in DAssign (l, r)
+  | 1 -> DUndoLast
+  | 2 -> DUndoUntil (nextn s)
+  | 3 -> DDecide (nextn s)
+  | _ -> DOther
+
 let b x = if x then "1" else "0"
 let plist l = String.concat " " (List.map (fun x -> string_of_int (int_of_n x)) l)
 let polist = function None -> "none" | Some l -> "some " ^ plist l
@@ -227,6 +234,11 @@ let () =
               (* db levents -> number-of-analyses all-equal-to-the-model *)
               let db = rep s clause in let evs = rep s levent in
               let (n, ok) = check_analyses db evs in
+              Printf.sprintf "%d %s" (int_of_n n) (b ok)
+            | "decides" ->
+              (* U db devents -> number-of-decide-calls all-equal-to-the-model (default activity parameters) *)
+              let u = universe s in let db = rep s clause in let evs = rep s devent in
+              let (n, ok) = check_decides_default (table_provider u) db evs in
               Printf.sprintf "%d %s" (int_of_n n) (b ok)
             | "softkeep" ->
               (* levents -> nothing decided before a soft requirement was tried is ever undone *)
